@@ -5,7 +5,7 @@ ID = "C17"
 AREA = "c17"
 LEAN_PROPS = "Litep2pVerif.Props.C17"
 THEOREMS = ["store_bounds", "default_config_bounds", "no_expired_record", "no_expired_provider", "ttl_monotone",
-            "reannounce_in_place", "providers_closest_step"]
+            "reannounce_in_place", "providers_closest_step", "providers_closest"]
 CONSTS = ["DEFAULT_MAX_RECORDS", "DEFAULT_MAX_RECORD_SIZE_BYTES", "DEFAULT_MAX_PROVIDER_KEYS",
           "DEFAULT_MAX_PROVIDER_ADDRESSES", "DEFAULT_MAX_PROVIDERS_PER_KEY"]
 MANIFEST = {
